@@ -460,12 +460,10 @@ fn config_unchanged(c: &ServerConfig, s: &CfgSnap) -> bool {
         && c.accepted_versions.len() == s.n_versions
 }
 fn empty_keyset() -> Arc<KeySet> {
-    // header: time 0, id_offset 0, primary 0, one all-zero key (the keyset is only handed to
-    // stubbed callees; a key file without keys is rejected by load)
-    let mut bytes = [0u8; 20 + 64];
-    bytes[19] = 1;
-    let mut r: &[u8] = &bytes;
-    KeySetProvider::load(&mut r, 0).unwrap().0.get()
+    // the keyset is only handed to stubbed callees; built through the keyset.rs harness module
+    // (fields are private to keyset.rs)
+    use crate::verif_common::FromParts;
+    Arc::new(KeySet::from_parts(()))
 }
 fn any_server(cache_len: usize) -> (Server<AnyClock>, CfgSnap) {
     let mut elements = vec![None, None, None];
@@ -779,13 +777,13 @@ handle_harness! {
 }
 
 handle_harness! {
-    fn c15_canary_time_never_served_plain() fn c15_canary_time_never_served_nts() with fam {
+    fn c15_tcanary_time_never_served_plain() fn c15_tcanary_time_never_served_nts() with fam {
         let _r = run_handle(false, fam);
         assert!(!built_time(), "CANARY: must be refuted");
     }
 }
 handle_harness! {
-    fn c15_canary_denied_never_answered_plain() fn c15_canary_denied_never_answered_nts() with fam {
+    fn c15_tcanary_denied_never_answered_plain() fn c15_tcanary_denied_never_answered_nts() with fam {
         let r = run_handle(false, fam);
         if spec_lists(&r.cfg) == ListVerdict::Deny {
             assert!(!r.responded, "CANARY: must be refuted");
@@ -816,11 +814,175 @@ handle_harness! {
     }
 }
 handle_harness! {
-    fn c16_canary_strictly_shorter_plain() fn c16_canary_strictly_shorter_nts() with fam {
+    fn c16_tcanary_strictly_shorter_plain() fn c16_tcanary_strictly_shorter_nts() with fam {
         let r = run_handle(true, fam);
         if r.responded {
             assert!(r.msg_len < r.req_len, "CANARY: must be refuted");
         }
+    }
+}
+
+// ================================================================ `handle` alone, against handle_inner's contract
+// Server::handle = handle_inner (policy, parsing, builder choice: thorough-tier harnesses above) followed by
+// serialisation into the caller's buffer and exactly one statistics entry. Here handle_inner is replaced
+// by its contract -- Err(Ignore) after exactly one registration, or Ok(arbitrary HandleInnerData) with no
+// registration -- and NtpPacket::serialize by its model (Err, or Ok after advancing the cursor by
+// n <= remaining). This isolates what C16 and C21 need from `handle` itself, at quick-tier cost.
+static HI_OK: AtomicBool = AtomicBool::new(false);
+static HI_ACTION: AtomicU8 = AtomicU8::new(0);
+static HI_REASON: AtomicU8 = AtomicU8::new(0);
+static HI_VERSION: AtomicU8 = AtomicU8::new(0);
+static HI_NTS: AtomicBool = AtomicBool::new(false);
+fn reason_of(c: u8) -> ServerReason {
+    match c {
+        R_RATELIMIT => ServerReason::RateLimit,
+        R_PARSE => ServerReason::ParseError,
+        R_CRYPTO => ServerReason::InvalidCrypto,
+        R_INTERNAL => ServerReason::InternalError,
+        _ => ServerReason::Policy,
+    }
+}
+impl<C: NtpClock> Server<C> {
+fn handle_inner_contract<'a>(
+    &mut self,
+    _client_ip: IpAddr,
+    _recv_timestamp: NtpTimestamp,
+    _message: &'a [u8],
+    stats_handler: &mut impl ServerStatHandler,
+) -> Result<HandleInnerData<'a>, ServerAction<'static>> {
+    let reason = reason_of(HI_REASON.load(Relaxed));
+    let version = version_of(HI_VERSION.load(Relaxed));
+    if !HI_OK.load(Relaxed) {
+        stats_handler.register(version.into(), HI_NTS.load(Relaxed), reason, ServerResponse::Ignore);
+        return Err(ServerAction::Ignore);
+    }
+    let action = match HI_ACTION.load(Relaxed) {
+        S_NAK => ServerResponse::NTSNak,
+        S_DENY => ServerResponse::Deny,
+        _ => ServerResponse::ProvideTime,
+    };
+    let cipher: Option<Box<dyn Cipher>> = if kani::any() { Some(Box::new(GhostCipher { key: [S2C_TAG] })) } else { None };
+    Ok(HandleInnerData {
+        action,
+        reason,
+        version,
+        nts: HI_NTS.load(Relaxed),
+        packet: NtpPacket::default(),
+        cipher,
+        desired_size: if kani::any() { Some(kani::any()) } else { None },
+    })
+}
+}
+fn arm_handle_alone() {
+    HI_OK.store(kani::any(), Relaxed);
+    let a: u8 = kani::any();
+    kani::assume(a == S_NAK || a == S_DENY || a == S_TIME);
+    HI_ACTION.store(a, Relaxed);
+    let r: u8 = kani::any();
+    kani::assume(r >= 1 && r <= 5);
+    HI_REASON.store(r, Relaxed);
+    let v: u8 = kani::any();
+    kani::assume(v >= 3 && v <= 5);
+    HI_VERSION.store(v, Relaxed);
+    HI_NTS.store(kani::any(), Relaxed);
+    SER_OK.store(kani::any(), Relaxed);
+    SER_N.store(kani::any(), Relaxed);
+}
+macro_rules! handle_alone_harness {
+    (fn $name:ident() $body:block) => {
+        harness! {
+            #[kani::unwind(18)]
+            #[kani::stub(Server::handle_inner, Server::handle_inner_contract)]
+            #[kani::stub(NtpPacket::serialize, serialize_model)]
+            fn $name() $body
+        }
+    };
+}
+
+handle_alone_harness! {
+    // C16: an answer is a prefix of the caller's buffer, hence never longer than a request-sized buffer
+    fn c16_p_handle_alone_message_is_buffer_prefix() {
+        let (mut srv, _cfg) = any_server(0);
+        arm_handle_alone();
+        let msg: [u8; MSG_MAX] = kani::any();
+        let req_len: usize = kani::any();
+        kani::assume(req_len <= MSG_MAX);
+        let mut buf = [0u8; MSG_MAX];
+        let request_sized: bool = kani::any();
+        let buf_len: usize = if request_sized { req_len } else { kani::any() };
+        kani::assume(buf_len <= MSG_MAX);
+        let buf_ptr = buf.as_ptr();
+        let mut stats = RecStats;
+        let action = srv.handle(any_ip(), NtpTimestamp::from_bits(kani::any()), &msg[..req_len], &mut buf[..buf_len], &mut stats);
+        match action {
+            ServerAction::Ignore => {}
+            ServerAction::Respond { message } => {
+                assert!(message.as_ptr() == buf_ptr);
+                assert!(message.len() <= buf_len);
+                assert!(message.len() == SER_N.load(Relaxed));
+                if request_sized {
+                    assert!(message.len() <= req_len);
+                }
+                assert!(HI_OK.load(Relaxed) && SER_OK.load(Relaxed) && SER_CALLS.load(Relaxed) == 1);
+            }
+        }
+        kani::cover!(matches!(action, ServerAction::Respond { message } if message.len() == req_len && req_len == MSG_MAX), "answer as long as the request");
+        kani::cover!(matches!(action, ServerAction::Ignore) && HI_OK.load(Relaxed), "serialisation failure reachable");
+    }
+}
+handle_alone_harness! {
+    // C21: exactly one statistics entry per datagram; it says what was done
+    fn c21_p_handle_alone_registers_exactly_once() {
+        let (mut srv, _cfg) = any_server(0);
+        arm_handle_alone();
+        let msg: [u8; MSG_MAX] = kani::any();
+        let mut buf = [0u8; MSG_MAX];
+        let buf_len: usize = kani::any();
+        kani::assume(buf_len <= MSG_MAX);
+        let mut stats = RecStats;
+        let action = srv.handle(any_ip(), NtpTimestamp::from_bits(kani::any()), &msg[..], &mut buf[..buf_len], &mut stats);
+        assert!(REG_CALLS.load(Relaxed) == 1);
+        let responded = matches!(action, ServerAction::Respond { .. });
+        if !HI_OK.load(Relaxed) {
+            // handle_inner already ignored (and registered) the datagram
+            assert!(!responded && REG_RESPONSE.load(Relaxed) == S_IGNORE && SER_CALLS.load(Relaxed) == 0);
+        } else if responded {
+            assert!(REG_RESPONSE.load(Relaxed) == HI_ACTION.load(Relaxed));
+            assert!(REG_REASON.load(Relaxed) == HI_REASON.load(Relaxed));
+            assert!(REG_NTS.load(Relaxed) == HI_NTS.load(Relaxed));
+            assert!(REG_VERSION.load(Relaxed) == HI_VERSION.load(Relaxed));
+        } else {
+            // the answer could not be serialised: accounted as an internal error, nothing sent
+            assert!(REG_RESPONSE.load(Relaxed) == S_IGNORE && REG_REASON.load(Relaxed) == R_INTERNAL);
+            assert!(REG_NTS.load(Relaxed) == HI_NTS.load(Relaxed) && REG_VERSION.load(Relaxed) == HI_VERSION.load(Relaxed));
+        }
+        kani::cover!(responded && REG_RESPONSE.load(Relaxed) == S_TIME, "time answer reachable");
+        kani::cover!(!responded && HI_OK.load(Relaxed), "internal error reachable");
+    }
+}
+handle_alone_harness! {
+    fn c16_canary_handle_alone_strictly_shorter() {
+        let (mut srv, _cfg) = any_server(0);
+        arm_handle_alone();
+        let msg: [u8; MSG_MAX] = kani::any();
+        let mut buf = [0u8; MSG_MAX];
+        let mut stats = RecStats;
+        let action = srv.handle(any_ip(), NtpTimestamp::from_bits(kani::any()), &msg[..], &mut buf[..], &mut stats);
+        if let ServerAction::Respond { message } = action {
+            assert!(message.len() < MSG_MAX);
+        }
+    }
+}
+handle_alone_harness! {
+    fn c21_canary_handle_alone_always_registers_what_was_asked() {
+        let (mut srv, _cfg) = any_server(0);
+        arm_handle_alone();
+        kani::assume(HI_OK.load(Relaxed));
+        let msg: [u8; MSG_MAX] = kani::any();
+        let mut buf = [0u8; MSG_MAX];
+        let mut stats = RecStats;
+        let _ = srv.handle(any_ip(), NtpTimestamp::from_bits(kani::any()), &msg[..], &mut buf[..], &mut stats);
+        assert!(REG_RESPONSE.load(Relaxed) == HI_ACTION.load(Relaxed));
     }
 }
 
@@ -891,7 +1053,7 @@ handle_harness! {
     }
 }
 handle_harness! {
-    fn c21_canary_never_ignored_plain() fn c21_canary_never_ignored_nts() with fam {
+    fn c21_tcanary_never_ignored_plain() fn c21_tcanary_never_ignored_nts() with fam {
         let _r = run_handle(false, fam);
         assert!(REG_RESPONSE.load(Relaxed) != S_IGNORE, "CANARY: must be refuted");
     }
@@ -957,7 +1119,7 @@ handle_harness! {
     }
 }
 handle_harness! {
-    fn c19_canary_decrypt_error_never_answered_plain() fn c19_canary_decrypt_error_never_answered_nts() with fam {
+    fn c19_tcanary_decrypt_error_never_answered_plain() fn c19_tcanary_decrypt_error_never_answered_nts() with fam {
         let r = run_handle(false, fam);
         if GEN_KIND.load(Relaxed) == GEN_DECRYPT_ERR {
             assert!(!r.responded, "CANARY: must be refuted");
@@ -978,7 +1140,7 @@ handle_harness! {
     }
 }
 handle_harness! {
-    fn c22_canary_never_responds_plain() fn c22_canary_never_responds_nts() with fam {
+    fn c22_tcanary_never_responds_plain() fn c22_tcanary_never_responds_nts() with fam {
         let r = run_handle(false, fam);
         assert!(!r.responded, "CANARY: must be refuted");
     }
